@@ -26,7 +26,7 @@ MISSING_OK = ('float16', 'float32', 'float64', 'complex64', 'complex128', 'objec
 OPS = ('f_fillna_dir1', 's_reindex', 's_shift', 's_concat', 's_insert', 's_assign_el', 's_assign_arr', 's_assign_series', 's_assign_series_partial', 'f_assign_series_partial', 's_fillna', 's_fillna_series', 's_overlay', 's_from_items', 's_from_list',
        'f_reindex', 'f_shift', 'f_concat0', 'f_concat1', 'f_assign_el', 'f_assign_arr', 'f_assign_series', 'f_assign_bloc', 'f_fillna', 'f_fillna_sided',
        'f_row', 'f_values', 'f_iter_array1', 'f_from_records', 'f_from_records_mixed', 'f_from_dict_records', 'f_from_items', 'f_insert', 'f_overlay',
-       'go_setitem', 'go_extend', 'ix_append', 'ix_fillna', 'f_relabel_shift', 'f_unset_index')
+       'go_setitem', 'go_extend', 'ix_append', 'ix_fillna', 'f_relabel_shift', 'f_unset_index', 'f_pivot_stack', 'f_pivot_unstack')
 
 
 def _str_or_bytes(k):
@@ -351,6 +351,24 @@ def check(case):
             r = ix.fillna(eb)
             for q, (g, w) in enumerate(zip(arr_list(r.values), [eb if is_missing(x) else x for x in uniq])):
                 _cmp(g, w, '%s[%d]' % (op, q), cells)
+        elif op in ('f_pivot_stack', 'f_pivot_unstack'):
+            # two columns of unlike dtypes under one outer label are merged into one column (stack) and taken apart again
+            # (unstack): every value is kept as it is, in either order of the two
+            first, second = (a, b) if j % 2 == 0 else (b, a)
+            f = sf.Frame.from_items(zip((('g', 0), ('g', 1)), (first, second)), index=['r%d' % q for q in idx], columns_constructor=sf.IndexHierarchy.from_labels)
+            r = f.pivot_stack(1)
+            src = {('r%d' % q, 0): arr_list(first)[q] for q in idx}
+            src.update({('r%d' % q, 1): arr_list(second)[q] for q in idx})
+            labs = [tuple(canon(x) for x in t) for t in r.index]
+            if sorted(labs) != sorted(src):
+                raise Failure('value', '%s: stacked row labels %r' % (op, labs))
+            if op == 'f_pivot_stack':
+                _series_cells(r.iloc[:, 0], [src[l] for l in labs], op, cells)
+            else:
+                u = r.pivot_unstack(1)
+                for c, t in enumerate(u.columns):
+                    rl = [canon(x) for x in u.index]
+                    _series_cells(u.iloc[:, c], [src[(x, int(t[1]))] for x in rl], op + '[%r]' % (int(t[1]),), cells)
         elif op in ('f_relabel_shift', 'f_unset_index'):
             uniq = []
             for x in la:
